@@ -426,7 +426,7 @@ def check_shifter_width(run, repo):
                 ok = True
                 if isinstance(w, ast.Constant):
                     if w.value != 32:
-                        allowed = (w.value == 4 and fn.name == 'it_advance')   # ITAdvance shifts the 4-bit mask
+                        allowed = fn.name == 'it_advance'   # ITAdvance shifts the IT mask at its own width; its result is judged bit for bit by C08-A
                         if not allowed:
                             ok = False
                             run.violation('C17-X', mod.relpath, fn.name, norm_stmt(node, 100),
